@@ -139,6 +139,20 @@ def run(ctx):
             declared = (a, b) in set(declared_pairs())
             ctx.add(enum_ob(f'C11.pair.{a}.extends.{b}', not bad, logic=a, base=b, declared=declared,
                             clause='every interpretation of the extension is an interpretation of the base with the same designations', cex=(bad[0] if bad else None), cex_all=bad[:12] or None))
+    # premise of L-EXT restated per extension: the access rules of a modal extension L keep saturating the frame condition
+    # (they decline a missing access pair only on a limit-affected branch), or a T-valid argument is refuted in S4 by an
+    # under-saturated open branch that carries no limit marker
+    from checks import c02
+    seen_l = set()
+    for a in sorted(ext):
+        lg = RS.registry()(a)
+        if not lg.Meta.modal or a in seen_l: continue
+        seen_l.add(a); funcs = {}
+        for r in c02.access_saturation(lg, funcs):
+            r.name = r.name.replace('C02.saturation.', 'C11.extension-saturates.')
+            ctx.add_result(r)
+        ctx.functions.update(funcs)
+    ctx.replayers['C11.extension-saturates.'] = replay_extension_saturates
     bounded_monotone(ctx)
     ctx.replayers['C11.pair.'] = replay_pair
     ctx.replayers['C11.'] = lambda r: dict(reproduced=None, detail='see counterexample / meta')
@@ -162,6 +176,23 @@ def replay_pair(r):
         if P.outcome(lw, arg)[0] == 'valid' and P.outcome(ls, arg)[0] == 'invalid':
             return dict(reproduced=True, detail=f'{arg.argstr()} is valid in {b} but refuted by a limit-free open branch in {a}', argument=arg.argstr())
     return dict(reproduced=False, detail='no separating argument among the small candidates')
+
+def replay_extension_saturates(r):
+    "a structured modal argument valid in a declared base of L and refuted limit-free in L"
+    from checks import c02
+    from bounded import prover as P
+    from pytableaux.lang import Argument
+    L = r.meta.get('logic')
+    bases = sorted(closure_pairs().get(L, ()))
+    ls = RS.registry()(L)
+    for astr in c02.modal_family():
+        arg = Argument(astr)
+        if P.outcome(ls, arg)[0] != 'invalid': continue
+        for b in bases:
+            lb = RS.registry()(b)
+            if lb.Meta.modal and P.outcome(lb, arg)[0] == 'valid':
+                return dict(reproduced=True, detail=f'{astr} is valid in {b} but refuted by a limit-free open branch in its declared extension {L}', argument=astr)
+    return dict(reproduced=False, detail='no separating argument in the structured modal family')
 
 def replay(payload):
     if payload.get('kind') == 'bounded':
